@@ -78,6 +78,17 @@ Newest == IF stage = 1 THEN t1 ELSE IF stage = 2 THEN t2 ELSE t3
 WF == WellFormed(Newest) /\ S(Newest) = SplitSet(Newest) /\ TreeTx(Newest) = TreeTx(t1)
 PairAxioms == stage = 2 => PairOk(t1, t2)
 DefinedSymmetric == stage = 2 => Def(t1, t2) = Def(t2, t1)
+\* magnitude: the definitions are homogeneous, and the pair arithmetic used for large lengths agrees with the
+\* plain definition for a concrete base (every non-seed edge one Base longer)
+WithHi(g) == [hi |-> [x \in 1..g.n |-> IF x = g.seed THEN 0 ELSE 1]] @@ g
+MagnitudeOk == (fam = "top" /\ stage = 2) =>
+    LET a == WithHi(t1)  b == WithHi(t2)
+        big == WRFBig(Enc(HiGraph(a)), Enc(a), Enc(HiGraph(b)), Enc(b)) IN
+    /\ WRF(Scaled(t1, 8), Scaled(t2, 8)) = 8 * WRF(t1, t2)
+    /\ Euclid2(Scaled(t1, 8), Scaled(t2, 8)) = 64 * Euclid2(t1, t2)
+    /\ big[1] * 4096 + big[2] = WRF(Concrete(a, 4096), Concrete(b, 4096))
+    /\ (big = <<0, 0>>) = (Enc(Concrete(a, 4096)) = Enc(Concrete(b, 4096)))
+    /\ (SameHi(Enc(HiGraph(a)), Enc(HiGraph(b))) => Euclid2(Concrete(a, 4096), Concrete(b, 4096)) = Euclid2(t1, t2))
 \* the first call on fresh trees already returns the definition (as shipped it does not: hidden basal bifurcation)
 FirstEnc(g) == IF AsShipped THEN EncShipped(g) ELSE Enc(g)
 FirstCallExact == (fam = "unary" /\ stage = 2) => WRFe(FirstEnc(t1), FirstEnc(t2)) = WRF(t1, t2)
